@@ -78,10 +78,95 @@ def search(case, seed=0, budget=80):
     return False, "; ".join(details)
 
 
+BD = "sequence/align/banded.pyx"
+NEG = -(2 ** 30)
+
+
+def band_oracle(c1, c2, M, lo, up, gap, local, S0, T0, S, T):
+    """Bellman postcondition of the straightened band table"""
+    n1, n2, w = len(c1), len(c2), up - lo + 1
+    for r in range(n1 + 1):
+        for c in range(w + 2):
+            sj = c - 1 + (r - 1) + lo
+            inside = r >= 1 and 1 <= c <= w and 0 <= sj < n2
+            if not inside:
+                if S[r][c] != S0[r][c] or T[r][c] != T0[r][c]:
+                    return f"cell ({r},{c}) outside the band modified"
+                continue
+            d = S[r - 1][c] + M[c1[r - 1]][c2[sj]]
+            left, top = S[r][c - 1] + gap, S[r - 1][c + 1] + gap
+            m = max(d, left, top)
+            if local and m <= 0:
+                exp = (0, T0[r][c])
+            else:
+                exp = (m, (1 if d == m else 0) + (2 if left == m else 0) + (4 if top == m else 0))
+            if (S[r][c], T[r][c]) != exp:
+                return f"cell ({r},{c}) [seq positions {r - 1},{sj}]: (score, trace) = {(S[r][c], T[r][c])}, the band recurrence gives {exp}"
+    return None
+
+
+def search_band(seed=0, budget=80):
+    rng = random.Random(seed)
+    inputs = []
+    for _ in range(budget):
+        n1 = rng.randint(1, 3)
+        n2 = rng.randint(n1, 4)
+        asz = rng.randint(1, 3)
+        c1 = [rng.randrange(asz) for _ in range(n1)]
+        c2 = [rng.randrange(asz) for _ in range(n2)]
+        M = [[rng.randint(-3, 3) for _ in range(asz)] for _ in range(asz)]
+        lo = rng.randint(-n1 + 1, n2 - 1)
+        up = rng.randint(lo, n2 - 1)
+        gap = rng.randint(-3, 0)
+        local = rng.random() < 0.4
+        w = up - lo + 1
+        S0 = [[NEG] + [0] * w + [NEG] for _ in range(n1 + 1)]
+        T0 = [[0] * (w + 2) for _ in range(n1 + 1)]
+        inputs.append((c1, c2, M, lo, up, gap, local, S0, T0))
+    details = []
+    sync, checked, bad = compiled_in_sync(BD)
+    if sync:
+        import numpy as np
+        from biotite.sequence.align import banded
+        for c1, c2, M, lo, up, gap, local, S0, T0 in inputs:
+            S = np.array(S0, dtype=np.int32)
+            T = np.array(T0, dtype=np.uint8)
+            banded._fill_align_table(np.array(c1, dtype=np.uint8), np.array(c2, dtype=np.uint8), np.array(M, dtype=np.int32), T, S, lo, up, gap, local)
+            f = band_oracle(c1, c2, M, lo, up, gap, local, S0, T0, S.tolist(), T.tolist())
+            if f:
+                return True, f"compiled banded._fill_align_table on code1={c1} code2={c2} matrix={M} band=({lo},{up}) gap={gap} local={local}: {f}"
+        details.append(f"compiled module (in sync): {len(inputs)} small inputs agree with the band recurrence")
+    else:
+        details.append(f"compiled module is stale w.r.t. banded.pyx (lines {bad[:5]})")
+    batch = [{"args": [{"array": c1, "ctype": "uint8"}, {"array": c2, "ctype": "uint8"}, {"array": M, "ctype": "int32", "ndim": 2},
+                       {"array": T0, "ctype": "uint8", "ndim": 2}, {"array": S0, "ctype": "int32", "ndim": 2},
+                       {"cv": lo, "ctype": "int"}, {"cv": up, "ctype": "int"}, {"cv": gap, "ctype": "int"}, {"cv": int(local), "ctype": "bint"}]}
+             for c1, c2, M, lo, up, gap, local, S0, T0 in inputs]
+    outs = engine_batch(BD + "::_fill_align_table", batch)
+    for (c1, c2, M, lo, up, gap, local, S0, T0), o in zip(inputs, outs):
+        if o.get("outcome") in ("unsupported", "engine-error"):
+            details.append(f"extracted text not executable: {o.get('error')}")
+            break
+        if o.get("failed_safety_obligations") or o.get("outcome") == "undefined-behaviour":
+            return True, f"extracted banded._fill_align_table on code1={c1} code2={c2} band=({lo},{up}): out-of-bounds access {o.get('failed_safety_obligations', [])[:2]}"
+        after = o.get("args_after") or []
+        if o.get("outcome") != "return" or len(after) < 5:
+            return True, f"extracted banded._fill_align_table on code1={c1} code2={c2} band=({lo},{up}): outcome {o.get('outcome')} {o.get('exception', '')}"
+        f = band_oracle(c1, c2, M, lo, up, gap, local, S0, T0, after[4], after[3])
+        if f:
+            return True, f"extracted banded._fill_align_table on code1={c1} code2={c2} matrix={M} band=({lo},{up}) gap={gap} local={local}: {f}"
+    else:
+        details.append(f"extracted text: {len(inputs)} small inputs agree with the band recurrence")
+    return False, "; ".join(details)
+
+
 def main():
     rec = json.load(open(sys.argv[1]))
     try:
-        rep, detail = search(rec["case"])
+        if "banded.pyx" in rec["case"]:
+            rep, detail = search_band()
+        else:
+            rep, detail = search(rec["case"])
     except Exception:
         rep, detail = None, "replayer error: " + traceback.format_exc()[-700:]
     finish(rep, detail)
